@@ -87,7 +87,12 @@ def runCase (j : Json) : Except String Json := do
   let ops ← (← j.getObjVal? "ops").getArr?
   let ops ← ops.toList.mapM parseOp
   let num : ObjId → Int := fun o => poolNums.getD o 0
-  match init owned num initIds with
+  -- value class for Python `==` (Surface / Material compare by value): absent = one class per object
+  let contentL : List Nat := match j.getObjVal? "content" with
+    | .ok (Json.arr a) => a.toList.map (fun x => match x.getNat? with | .ok n => n | .error _ => 0)
+    | _ => []
+  let content : ObjId → Nat := fun o => if contentL.isEmpty then o else contentL.getD o o
+  match init owned num initIds content with
   | none => return Json.mkObj [("init", "NumberConflictError")]
   | some s0 =>
     let (s0, ob0) := observe s0 probes
